@@ -89,6 +89,8 @@ class World:
         self.qlog = {}
         self._keepalive = []
         self.fresh_parent_entry_errs = {}
+        self.created_at = {}
+        self.o2_results = {}
 
     # ------------------------------------------------------------------------------------------ util
     def stat(self, k, n=1):
@@ -327,6 +329,12 @@ class World:
                         fe = self.fresh_parent_entry_errs.get((w[0], n))
                         if fe is not None and fe[0] > 1e-4:
                             direct_inexact = True  # the derivation leaves an equally inexact entry on a fresh parent
+                        o2r = self.o2_results.get((oid, n.split("(")[0]))
+                        if (o2r is not None and self.created_at.get(oid) == w[0] and isinstance(o2r[0], float) and isinstance(o2r[1], float)
+                                and o2r[1] > 1e-4 and o2r[0] <= max(30 * o2r[1], 1e-2)):
+                            # the transplanted entry was judged at creation (O2) and a re-computation on the object derived from fresh
+                            # parents was just as inexact: the library computes garbage for this operator with or without history
+                            direct_inexact = True
                     rows.append({"step": i, "obj": oid, "path": p, "name": n, "writer": f"{w[1]}:{w[2]}", "direct_inexact": direct_inexact,
                                  "err": (pc_err if (n.startswith("@_") and p == ".") else world.entry_error(rec.op, p, n, fresh))})
             self.entries_by_step[i] = rows
@@ -449,6 +457,7 @@ class World:
             self.parent_roots_after_derive[i] = rows
         # reference: the same construction from fresh parents
         self.objs[oid] = rec  # temporarily, so that rebuild can find the spec
+        self.created_at[oid] = i
         fresh_exc = None
         dense_exc = None
         D = None
@@ -667,6 +676,8 @@ class World:
         if hres is not None:
             for ro in hres.ops:
                 self.stat("returned_ops")
+        if op.get("auto"):
+            self.o2_results[(oid, qname)] = (herr, ferr)
         if self.mode == "C12":
             self.judge(i, op, rec, qsig, label, hres, hexc, fres, fexc, fault, fired, foreign)
             if not self.violations and hres is not None and fres is not None and not op.get("auto"):
